@@ -6,6 +6,8 @@
 name: array_iterator
 define: U_ITER
 src: array.c, obj.c
+native: array_list
+native_includes: array.c
 enforce: spif_array_iterator
 funcs: spif_array_iterator_new, spif_array_iterator_init
 backend: sat
@@ -14,6 +16,8 @@ backend: sat
 name: array_iterator_has_next
 define: U_HAS_NEXT
 src: array.c, obj.c
+native: array_list
+native_includes: array.c
 enforce: spif_array_iterator_has_next
 backend: sat
 */
@@ -21,6 +25,8 @@ backend: sat
 name: array_iterator_next
 define: U_NEXT
 src: array.c, obj.c
+native: array_list
+native_includes: array.c
 enforce: spif_array_iterator_next
 funcs: spif_array_get
 backend: sat
@@ -29,6 +35,8 @@ backend: sat
 name: array_iterator_del
 define: U_ITDEL
 src: array.c, obj.c
+native: array_list
+native_includes: array.c
 enforce: spif_array_iterator_del
 funcs: spif_array_iterator_done
 backend: sat
@@ -45,7 +53,7 @@ backend: sat
 
 #ifdef U_ITER
 static spif_iterator_t spif_array_iterator(spif_array_t self)
-__CPROVER_requires(ARRAY_VALID(self) && spif_array_iteratorclass == &ai_class)
+__CPROVER_requires(ARRAY_VALID_W(self) && spif_array_iteratorclass == &ai_class)
 __CPROVER_assigns()
 __CPROVER_ensures(__CPROVER_is_fresh(__CPROVER_return_value, sizeof(struct spif_array_iterator_t_struct)))
 __CPROVER_ensures(((spif_array_iterator_t) __CPROVER_return_value)->subject == self &&
